@@ -46,6 +46,7 @@ def run(ctx):
     c05.side_rules_3(ctx)
     c05.side_rules_4(ctx, cg)
     validation_rules(ctx, cg)
+    narrowing_casts(ctx, cg)
     side = RV.SideConditions(ctx)
     # ---- A: the loader
     lreach = sorted(r for r in cg.reachable([LOADER]) if r in P.bodies)
@@ -60,6 +61,61 @@ def run(ctx):
     ctx.notes.append("serving: %d sites, %d discharged by the engine" % (n_sites, n_dis))
     # ---- loops of the loader
     c05._termination(ctx, cg, lreach, loops_floor=15)
+
+
+# narrowing casts of the loader that are meant to drop bits, by function (reason each)
+INTENDED_TRUNCATION = {
+    "erbium_net::Ipv4Subnet::netmask": "!(0xffff_ffff_u64 >> prefixlen) as u32: the mask is computed in 64 bits so that a shift by 32 is defined; the low 32 bits are the mask",
+}
+
+
+def narrowing_casts(ctx, cg):
+    """V6: a number the operator wrote is never narrowed with `as` unless its range is known to fit: `4294967296s` must be an
+    error or a saturated value, not 0 s"""
+    P = ctx.P
+    if LOADER not in P.bodies:
+        return
+    reach = [r for r in cg.reachable([LOADER]) if r in P.bodies and "::test" not in r]
+    D = oblig.Discharger(P)
+    BITS = oblig.INT_BITS
+    n = 0
+    for r in sorted(reach):
+        b = P.bodies[r]
+        pr = None
+        for bb, idx, st in b.stmts():
+            rv = st.get("rv")
+            if not (rv and rv["k"] == "cast" and "IntToInt" in str(rv.get("ck", rv))) or len(st["p"]) != 1:
+                continue
+            src = op_place(rv["op"])
+            if src is None:
+                continue
+            pr = pr or D.prover(b)
+            t = oblig.canon(pr.T.operand(rv["op"], bb, idx))
+            sty = oblig._strip_ref(pr.ranger.typer.of(t) or (b.local_ty(src[0]) if len(src) == 1 else ""))
+            dty = b.local_ty(st["p"][0])
+            if sty not in BITS or dty not in BITS:
+                continue
+            sb, db = BITS[sty], BITS[dty]
+            ssig, dsig = sty.startswith("i"), dty.startswith("i")
+            if not (sb > db or (ssig and not dsig) or (sb == db and ssig != dsig)):
+                continue
+            n += 1
+            rg = pr.ranger.rng(t)
+            tr = oblig.type_range(dty)
+            fits = rg[0] is not None and rg[1] is not None and rg[0] >= tr[0] and rg[1] <= tr[1]
+            if not fits:
+                # a dominating comparison may bound it
+                lo = pr.prove(oblig._add(oblig._neg(pr.lin(t)), ({}, tr[0])), bb)
+                hi = pr.prove(oblig._add(pr.lin(t), ({}, -tr[1])), bb)
+                fits = bool(lo and hi)
+            root = b.id.split("::{")[0]
+            if not fits and root in INTENDED_TRUNCATION:
+                ctx.ok("V6", "narrowing-cast:intended:%s" % root.rsplit("::", 1)[-1], ctx.where(b, st["sp"]), INTENDED_TRUNCATION[root])
+                continue
+            ctx.check(fits, "V6", "narrowing-cast-of-a-configured-number:%s:%s->%s" % (root.rsplit("::", 1)[-1], sty, dty), ctx.where(b, st["sp"]),
+                      "`as %s` drops the high bits of a %s whose range is not known to fit (%s, range %s): a configured value beyond the "
+                      "target type silently becomes another value" % (dty, sty, show(t)[:100], rg))
+    ctx.floor("V6", "narrowing casts in the loader", n, 1)
 
 
 def validation_rules(ctx, cg):
@@ -167,3 +223,51 @@ def validation_rules(ctx, cg):
                           "edge of `len(reply) > N` with N <= 65507")
     if ctx.config in ("default", "dhcp"):
         ctx.floor("V4", "DHCP frame constructions", n, 1)
+    # ---------------- V5: the lease-time bounds handed to the allocator are bounded themselves
+    # (the allocator adds the clamped lease time to the clock in 64 bits and narrows the sum to the 32-bit expiry column)
+    n = 0
+    seen_resp = 0
+    for b in P.bodies.values():
+        if not b.id.startswith("erbium::dhcp::") or "::test" in b.id:
+            continue
+        T = None
+        for bb, idx, st in b.stmts():
+            pl = st["p"]
+            rv = st.get("rv")
+            if rv is None:
+                continue
+            fld = next((x[1:] for x in pl[1:] if isinstance(x, str) and x in (".minlease", ".maxlease")), None)
+            vals = []
+            if fld and "dhcp::Response" in b.local_ty(pl[0]):
+                T = T or terms(P, b)
+                vals.append((fld, norm(T.rvalue(rv, bb, idx))))
+            if rv["k"] == "agg" and str(rv.get("adt", rv.get("def", ""))).endswith("dhcp::Response"):
+                T = T or terms(P, b)
+                seen_resp += 1
+                f = dict(norm(T.rvalue(rv, bb, idx))[3])
+                vals += [(k, norm(f[k])) for k in ("minlease", "maxlease") if k in f]
+            for fld, v in vals:
+                n += 1
+
+                def bounded(v, depth=0):
+                    v = norm(v)
+                    if depth > 6:
+                        return False
+                    if v[0] == "phi":
+                        return all(bounded(x, depth + 1) for x in v[1])
+                    if v[0] == "agg" and v[2] == "None":
+                        return True
+                    if v[0] == "field" and v[2] in ("minlease", "maxlease") and norm(v[1])[0] == "call" and str(norm(v[1])[1]).endswith("Default>::default"):
+                        return True
+                    if v[0] == "agg" and v[2] == "Some":
+                        return bounded(v[3][0][1], depth + 1)
+                    if v[0] == "const":
+                        return True
+                    if v[0] == "call" and str(v[1]).rsplit("::", 1)[-1] in ("min", "clamp") and any(norm(a)[0] == "const" for a in v[2]):
+                        return True
+                    return False
+                ctx.check(bounded(v), "V5", "lease-time-bound-is-bounded:%s" % fld, ctx.where(b, st["sp"]),
+                          "Response.%s reaches the allocator as a bound of the lease time, which is added to the clock and narrowed to "
+                          "32 bits: it must be absent, a constant, or clamped to a constant (is %s)" % (fld, show(v)[:120]))
+    if ctx.config in ("default", "dhcp"):
+        ctx.floor("V5", "constructions of the DHCP response under construction", seen_resp, 1)
